@@ -396,6 +396,13 @@ func c15CheckPanic(c c15Config, rs c15Resp) (bad, kind string) {
 	if strings.Contains(rs.events, "BODY-RAN-WITHOUT-DEPENDENCY") {
 		return "handler body ran although a dependency could not be resolved", "body-ran"
 	}
+	// Recovery has answered: that is a response written, so no handler behind the panicking one starts any more
+	// (in the phases in which the panic comes before the handler's own Next())
+	if c.Phase != "after-next" && c.Phase != "after-next-unanswered" && c.Phase != "unresolved-dependency" {
+		if i := strings.Index(rs.events, "panicker"); i >= 0 && (strings.Contains(rs.events[i:], "tail") || strings.Contains(rs.events[i:], "final")) {
+			return fmt.Sprintf("handlers behind the panicking one ran after Recovery had answered; events: %s", rs.events), "chain-went-on-after-the-answer"
+		}
+	}
 	return "", ""
 }
 
@@ -534,7 +541,7 @@ func c15Run(r *core.Run) {
 	if !r.Thorough() {
 		seqs = []string{"P", "PN", "PPN", "NPN", "PNP", "PQ", "QPQ", "PPQ"}
 	}
-	r.Rule = "engine E: stacks of 2..4 (thorough 5) handlers with Recovery at every position, logging middleware before it, pass-through handlers (with and without their own Next()) between it and the panicking handler at every later position; panic phase {before any write, after a status, after body bytes, after Next() returned, unresolved dependency, after a failed Hijack and Push, after Flush, 400 calls down the stack} x value {string, error, runtime error, struct, http.ErrAbortHandler, typed-nil error pointer, value whose String() panics} x registration style {application middleware, route handlers, middleware+group, middleware or route handlers with the panicking handler as the final Action} x {default, application-mapped ReturnHandler} x environment {development, production, test} x request sequences over {panicking, normal}; oracle: nothing escapes, status 500 iff nothing had been sent, detail in the body iff development, outer middleware completes, normal requests equal a fresh instance; non-trivial = sequence with >=2 requests or a panic after something was written"
+	r.Rule = "engine E: stacks of 2..4 (thorough 5) handlers with Recovery at every position, logging middleware before it, pass-through handlers (with and without their own Next()) between it and the panicking handler at every later position; panic phase {before any write, after a status, after body bytes, after Next() returned, unresolved dependency, after a failed Hijack and Push, after Flush, 400 calls down the stack} x value {string, error, runtime error, struct, http.ErrAbortHandler, typed-nil error pointer, value whose String() panics} x registration style {application middleware, route handlers, middleware+group, middleware or route handlers with the panicking handler as the final Action} x {default, application-mapped ReturnHandler} x environment {development, production, test} x request sequences over {panicking, normal}; oracle: nothing escapes, status 500 iff nothing had been sent, detail in the body iff development, outer middleware completes, no handler behind the panicking one runs once Recovery has answered, normal requests equal a fresh instance; non-trivial = sequence with >=2 requests or a panic after something was written"
 	r.Bounds["configs"] = len(cfgs)
 	r.Bounds["sequences"] = seqs
 	r.Assumptions = []string{"panic(nil) is outside the statement ('any non-nil value')", "environments are process-global: the three environments run as sequential phases"}
